@@ -155,9 +155,11 @@ func (dm *DMap) lookupOnOwners(hkey uint64, key string) []*version {
 	}
 
 	var versions []*version
-	versions = append(versions, dm.lookupOnThisNode(hkey, key))
 
-	// Run a query on the previous owners.
+	// Run a query on the previous owners first. The balancer moves the tables
+	// from the previous owners to this node and drops them there afterwards: a
+	// lookup on this node followed by a lookup on a previous owner finds the key
+	// in neither place when its table is moved in between.
 	// Traverse in reverse order. Except from the latest host, this one.
 	for i := len(owners) - 2; i >= 0; i-- {
 		owner := owners[i]
@@ -173,6 +175,7 @@ func (dm *DMap) lookupOnOwners(hkey uint64, key string) []*version {
 		// by the balancer.
 		versions = append(versions, v)
 	}
+	versions = append(versions, dm.lookupOnThisNode(hkey, key))
 	return versions
 }
 
